@@ -217,6 +217,15 @@ def generate():
           "        let mut w = Cursor::new(buffer);\n        " + warm + "\n        Ok(w.position() as usize)\n    }\n"
           "    #[allow(unused_assignments, unused_mut)]\n    pub fn x_read_algorithms_part(buffer: &[u8], field_len: usize) -> Result<Option<Algorithms>, Error> {\n"
           "        let mut r = Cursor::new(buffer);\n        let mut algorithms = None;\n        " + rarm + "\n        Ok(algorithms)\n    }\n}\n")
+    # the signature read of InitMsg::read_from: from `let pos = ...` up to (not including) `let signed_data = ...`
+    m = re.search(r"^( *)let pos = r\.position\(\) as usize;.*?(?=^\s*let signed_data\b)", init, re.M | re.S)
+    sig = need(m.group(0) if m else None, "signature read slice in InitMsg::read_from", "let pos = 0; let signature = [0u8; 0];")
+    if not re.search(r"\bsignature\b", sig):
+        problems.append("signature read slice no longer binds `signature`")
+    xi += ("impl InitMsg {\n    /// -> (signed length, signature length)\n    #[allow(unused_mut)]\n"
+           "    pub fn x_read_signature_part(buffer: &[u8], start: usize) -> Result<(usize, usize), Error> {\n"
+           "        let mut r = Cursor::new(buffer);\n        r.set_position(start as u64);\n" + sig +
+           "\n        let n = signature.len();\n        Ok((pos, n))\n    }\n}\n")
     write_if_changed(os.path.join(K.GEN, "extracted_init.rs"), xi)
     # 3. playback dispatch
     hs = all_harnesses()
